@@ -166,6 +166,24 @@ func c17NestedPrograms() []*progCase {
 		{Pr(d(), CallE(V("printf"), S("<%v>"), d()), S("after printf"))},
 	}
 	var out []*progCase
+	// a bare print (or a rule without a body), $ changed in place, a bare print again: each shows $ as it is then
+	change := func() Stmt {
+		return &If{Cond: &IsExpr{V("$"), "object"}, Then: Blk(Ex(Asg("=", Mem(V("$"), "seen"), &BoolLit{B: true})), Ex(Asg("=", Mem(Mem(V("$"), "sub"), "k"), Arr_(N("1"))))),
+			Else: &If{Cond: &IsExpr{V("$"), "array"}, Then: Blk(Ex(CallE(Mem(V("$"), "push"), S("more"))))}}
+	}
+	bump := &Func{Name: "bump", Params: []string{"v"}, Body: Blk(&If{Cond: &IsExpr{V("v"), "object"}, Then: Blk(Ex(Asg("=", Mem(V("v"), "bumped"), N("1")))), Else: &If{Cond: &IsExpr{V("v"), "array"}, Then: Blk(Ex(CallE(Mem(V("v"), "pop"))))}})}
+	inplace := [][]*Rule{
+		{{Body: Blk(Pr(), change(), Pr(), Pr(V("$")), Ex(CallE(V("bump"), V("$"))), Pr(), Pr(V("$")))}},
+		// (a rule without a body must not be followed by a rule that starts with '{': the two would read as one rule)
+		{{Pattern: &BoolLit{B: true}}, {Pattern: N("1"), Body: Blk(change())}, {Pattern: &BoolLit{B: true}}, {Pattern: N("1"), Body: Blk(Ex(CallE(V("bump"), V("$"))))}, {Pattern: &BoolLit{B: true}}, {Pattern: N("1"), Body: Blk(Pr(S("with argument"), V("$")))}},
+		{{Kind: "BEGINFILE", Body: Blk(Pr(), change(), Pr())}, {Kind: "ENDFILE", Body: Blk(Pr(), Ex(CallE(V("bump"), V("$"))), Pr())}},
+		{{Body: Blk(Ex(Asg("=", V("alias"), V("$"))), Pr(), &If{Cond: &IsExpr{V("alias"), "object"}, Then: Blk(Ex(Asg("=", Mem(V("alias"), "via"), S("alias"))))}, Pr(), Ex(Asg("=", V("$"), Arr_(V("$")))), Pr(), Pr())}},
+	}
+	for _, rules := range inplace {
+		for _, doc := range []string{`[{"n":1},{"n":2,"sub":{}},[1],[],"s",5]`, `{"n":1} [2]`} {
+			out = append(out, &progCase{P: &Program{Funcs: []*Func{bump}, Rules: rules}, Files: []inFile{{"in.json", doc}}})
+		}
+	}
 	for _, b := range bodies {
 		for _, doc := range []string{`[1,2,3]`, `[2]`, "1 2\n[2,1]"} {
 			out = append(out, &progCase{P: &Program{Funcs: funcs, Rules: []*Rule{{Body: Blk(b...)}}}, Files: []inFile{{"in.json", doc}}})
@@ -190,7 +208,7 @@ func init() {
 	const docUnits = 64
 	fw.Register(addTok(tokFramesC17, &fw.Prop{
 		ID: "C17",
-		Rule: "all JSON trees of depth <= 2 with <= 2 children per container over 12 scalars (incl. -0, 1e21, 5e-324, escapes, NUL) printed via print $, print $,$, a body-less rule and a bare print; trees of depth 1 over 19 further scalars (text-processing traps, strings that end in or consist of line ends and blanks); a structured sweep of doubles; 12 statement lists whose print arguments run other print statements (callee, match block, two levels, printf) as one site over several records; " +
+		Rule: "all JSON trees of depth <= 2 with <= 2 children per container over 12 scalars (incl. -0, 1e21, 5e-324, escapes, NUL) printed via print $, print $,$, a body-less rule and a bare print; trees of depth 1 over 19 further scalars (text-processing traps, strings that end in or consist of line ends and blanks); a structured sweep of doubles; 4 rule lists that print $ bare, change it in place (member store, push, callee, alias) and print it bare again; 12 statement lists whose print arguments run other print statements (callee, match block, two levels, printf) as one site over several records; " +
 			"all programs of <= L heap-building statements (cycles and sharing through arrays, objects, mixtures, popfirst-shared storage) printing every variable; oracle: reference renderer (DESIGN.md 3.14) byte for byte with probed key order, plus model-free laws " +
 			"(numbers positional and bit-identical on re-read; plain containers re-read as equal JSON); states = document shape classes and graph classes; non-trivial = distinct statement sequences whose rendering contains a recurrence marker",
 		Plan: func(t fw.Tier) int { return docUnits + 1 + len(graphOps) + 1 },
